@@ -262,6 +262,19 @@ def helpers(run):
                 run.violation({"kind": "gauss_quant_inaccurate", "p": p, "z": z, "error_in_std": errz})
 
 
+def gauss_quant_far_tail(run):
+    """Probabilities below the 1e-20 the rational approximation is specified for: whatever value is returned there (the
+    library saturates) lies on the lower side and not above the quantile of 1e-20 - the function does not turn round."""
+    z20 = util.gauss_quant(1e-20)
+    for p in (9.9e-21, 1e-21, 1e-30, 1e-300, 5e-324):
+        for (mu, std) in ((0.0, 1.0), (3.0, 2.0)):
+            z = util.gauss_quant(p, mu=mu, std=std)
+            run.evaluations += 1
+            if not (z <= mu + std * z20 and z < mu):
+                run.violation({"kind": "gauss_quant_not_increasing", "p": p, "z": z, "prev": mu + std * z20, "mu": mu, "std": std,
+                               "what": "a probability below 1e-20 maps above the quantile of 1e-20"})
+
+
 def run(tier, seed):
     run = common.Run("C20", tier, seed)
     nprng = np.random.RandomState(seed)
@@ -287,6 +300,7 @@ def run(tier, seed):
     gamma_attributes(run)
     returned_arrays_are_the_callers(run)
     helpers(run)
+    gauss_quant_far_tail(run)
     run.exhaustive = True
     run.not_decided += ["'sums to 1 up to O(1/width)' and gauss_quant's 1e-6 accuracy are statements of real analysis: not in the "
                         "specification; evaluated numerically by the harness (|sum-1| <= 3/width; error against math.erfc)"]
